@@ -18,6 +18,7 @@ import (
 	"errors"
 	"fmt"
 	"io"
+	"math"
 	"os"
 	"os/exec"
 	"reflect"
@@ -968,6 +969,59 @@ func genQ08(w *bufio.Writer, rng *prng, n int, depth int) {
 		var sb redact.StringBuilder
 		redact.JoinTo(&sb, delim, rs)
 		q.eq("C08", "JoinTo = Join", lit(string(sb.RedactableString())), lit(string(j)), info)
+		// any number of elements (none included), empty delimiters, elements of every redactable type
+		{
+			k := rng.intn(5)
+			d2 := delim
+			if rng.coin(1, 3) {
+				d2 = ""
+			}
+			var es []redact.RedactableString
+			var parts []string
+			for x := 0; x < k; x++ {
+				e := redact.RedactableString(g.redactable())
+				if x > 0 {
+					parts = append(parts, string(d2))
+				}
+				es = append(es, e)
+				parts = append(parts, string(e))
+			}
+			want := strings.Join(parts, "")
+			info2 := fmt.Sprintf("%s join of %d elements %q delim %q", info, k, es, d2)
+			var jn string
+			pj, _ := try(func() { jn = string(redact.Join(d2, es)) })
+			q.truth("C08", "Join panicked", !pj, info2)
+			if !pj {
+				q.eq("C08", "Join of any number of elements = concatenation with the delimiter", lit(jn), lit(want), info2)
+			}
+			var bs []redact.RedactableBytes
+			var mixed []interface{}
+			for x, e := range es {
+				bs = append(bs, redact.RedactableBytes(e))
+				switch (x + k) % 3 {
+				case 0:
+					mixed = append(mixed, e)
+				case 1:
+					mixed = append(mixed, redact.RedactableBytes(e))
+				default:
+					var inner redact.StringBuilder
+					inner.Print(e)
+					mixed = append(mixed, inner)
+				}
+			}
+			for name, vals := range map[string]interface{}{"[]RedactableBytes": bs, "[]interface{}": mixed, "[]RedactableString(nil)": []redact.RedactableString(nil)} {
+				if name == "[]RedactableString(nil)" && k > 0 {
+					continue
+				}
+				var sb2 redact.StringBuilder
+				sb2.SafeString("<")
+				pj, _ := try(func() { redact.JoinTo(&sb2, d2, vals) })
+				q.truth("C08", "JoinTo panicked", !pj, info2+" "+name)
+				if !pj {
+					q.eq("C08", "JoinTo of "+name+" = concatenation with the delimiter", lit(string(sb2.RedactableString())), lit("<"+want), info2)
+				}
+			}
+		}
 		q.pred("C08", "composition stays well-formed", "redactable", lit(string(j)), info)
 		q.pred("C08", "composition stays line-safe", "linesafe", lit(string(j)), info)
 		// model correspondence on the same operands
@@ -1820,6 +1874,26 @@ func (f fwd) Format(s fmt.State, verb rune) {
 	fmt.Fprintf(s, ff, f.x)
 }
 
+// elements printed before a Formatter in the same container: values whose rendering switches
+// formatter flags off and on again (NaN and infinities drop '0', bad verbs clear everything ...)
+var siblings = []interface{}{math.NaN(), math.Inf(1), math.Inf(-1), float32(math.NaN()), nil, true, 5, "s", []byte("b"), (*int)(nil), 2.5, -1, uint8(3), struct{ A float64 }{math.NaN()}}
+var siblingVals = []func() *Val{
+	func() *Val { return &Val{K: "f", GoT: "float64", F: math.NaN()} },
+	func() *Val { return &Val{K: "f", GoT: "float64", F: math.Inf(1)} },
+	func() *Val { return &Val{K: "f", GoT: "float64", F: math.Inf(-1)} },
+	func() *Val { return &Val{K: "f", GoT: "float32", F: math.NaN()} },
+	func() *Val { return &Val{K: "nil"} },
+	func() *Val { return &Val{K: "b", GoT: "bool", B: true} },
+	func() *Val { return &Val{K: "i", GoT: "int", I: 5} },
+	func() *Val { return &Val{K: "s", GoT: "string", S: "s"} },
+	func() *Val { return &Val{K: "bs", GoT: "[]byte", S: "b"} },
+	func() *Val { return &Val{K: "ptr", GoT: "*int", Nil: true, Elems: []*Val{{K: "i", GoT: "int", I: 5}}} },
+	func() *Val { return &Val{K: "f", GoT: "float64", F: 2.5} },
+	func() *Val { return &Val{K: "i", GoT: "int", I: -1} },
+	func() *Val { return &Val{K: "u", GoT: "uint8", U: 3} },
+	func() *Val { return &Val{K: "safe", Elems: []*Val{{K: "f", GoT: "float64", F: math.NaN()}}} },
+}
+
 func genQ14(w *bufio.Writer, rng *prng, n int, depth int) {
 	q := &qw{w}
 	setRegistry(false)
@@ -1881,22 +1955,62 @@ func genQ14(w *bufio.Writer, rng *prng, n int, depth int) {
 					if verb == 'T' || verb == 'p' || verb == 'w' {
 						continue
 					}
-					x := operands[(count+vi)%len(operands)]
 					args := func(v interface{}) []interface{} { return append(append([]interface{}{}, extra...), v) }
-					want := fmt.Sprintf(d, args(x)...)
-					info := fmt.Sprintf("directive %q operand %T %v", d, x, x)
-					q.eq("C14", "fmt.Sprintf(d, Safe(x)) differs from fmt.Sprintf(d, x)", lit(fmt.Sprintf(d, args(redact.Safe(x))...)), lit(want), info)
-					q.eq("C14", "fmt.Sprintf(d, Unsafe(x)) differs from fmt.Sprintf(d, x)", lit(fmt.Sprintf(d, args(redact.Unsafe(x))...)), lit(want), info)
-					q.eq("C14", "a Formatter forwarding with MakeFormat differs from a direct call (fmt)", lit(fmt.Sprintf(d, args(fwd{x})...)), lit(want), info)
-					if !(strings.Contains(fl, "0") && strings.Contains(fl, "-")) && utf8.ValidRune(verb) {
-						got := string(redact.Sprintf(d, args(fwd{x})...))
-						q.eq("C14", "a Formatter forwarding with MakeFormat differs from a direct call (redact printer)", fn("strip", lit(got)), fn("escm", lit(want)), info)
+					// the common verbs with the common width/precision settings: every operand;
+					// the rest of the product: one operand per directive
+					xs := []interface{}{operands[(count+vi)%len(operands)]}
+					if strings.ContainsRune("vsdxq", verb) && (wd == "" || wd == "7") && (pr == "" || pr == ".1") {
+						xs = operands
 					}
-					if utf8.ValidRune(verb) {
-						// the same against redact's own direct rendering: every flag subset, '-' with '0' included
-						got := string(redact.Sprintf(d, args(fwd{x})...))
-						direct := string(redact.Sprintf(d, args(x)...))
-						q.eq("C14", "under redact's printer a Formatter forwarding with MakeFormat differs from the direct call", fn("strip", lit(got)), fn("strip", lit(direct)), info)
+					for _, x := range xs {
+						want := fmt.Sprintf(d, args(x)...)
+						info := fmt.Sprintf("directive %q operand %T %v", d, x, x)
+						q.eq("C14", "fmt.Sprintf(d, Safe(x)) differs from fmt.Sprintf(d, x)", lit(fmt.Sprintf(d, args(redact.Safe(x))...)), lit(want), info)
+						q.eq("C14", "fmt.Sprintf(d, Unsafe(x)) differs from fmt.Sprintf(d, x)", lit(fmt.Sprintf(d, args(redact.Unsafe(x))...)), lit(want), info)
+						q.eq("C14", "a Formatter forwarding with MakeFormat differs from a direct call (fmt)", lit(fmt.Sprintf(d, args(fwd{x})...)), lit(want), info)
+						if !(strings.Contains(fl, "0") && strings.Contains(fl, "-")) && utf8.ValidRune(verb) {
+							got := string(redact.Sprintf(d, args(fwd{x})...))
+							q.eq("C14", "a Formatter forwarding with MakeFormat differs from a direct call (redact printer)", fn("strip", lit(got)), fn("escm", lit(want)), info)
+						}
+						if utf8.ValidRune(verb) {
+							// the same against redact's own direct rendering: every flag subset, '-' with '0' included
+							got := string(redact.Sprintf(d, args(fwd{x})...))
+							direct := string(redact.Sprintf(d, args(x)...))
+							q.eq("C14", "under redact's printer a Formatter forwarding with MakeFormat differs from the direct call", fn("strip", lit(got)), fn("strip", lit(direct)), info)
+							// nested in Unsafe / Safe under redact's printer: the wrapper's content is printed with the active directive
+							if !(strings.Contains(fl, "0") && strings.Contains(fl, "-")) {
+								gotU := string(redact.Sprintf(d, args(redact.Unsafe(fwd{x}))...))
+								q.eq("C14", "Unsafe(forwarding Formatter) under redact's printer differs from fmt's direct call", fn("strip", lit(gotU)), fn("escm", lit(want)), info)
+							}
+						}
+					}
+					// the State a Formatter sees does not depend on the sibling printed before it in the
+					// same container (flags switched off for one element must be switched on again)
+					if utf8.ValidRune(verb) && wd != "*" && pr != ".*" {
+						sib := siblings[(count+vi)%len(siblings)]
+						for _, redactState := range []bool{false, true} {
+							var ra, rb stateRec
+							sprintf := func(f string, a ...interface{}) string {
+								if redactState {
+									return string(redact.Sprintf(f, a...))
+								}
+								return fmt.Sprintf(f, a...)
+							}
+							_ = sprintf(d, []interface{}{sib, probeF{&ra}})
+							_ = sprintf(d, []interface{}{probeF{&rb}})
+							same := ra.flags == rb.flags && ra.wid == rb.wid && ra.wok == rb.wok && ra.prec == rb.prec && ra.pok == rb.pok && ra.verb == rb.verb
+							q.truth("C14", "the fmt.State handed to a Formatter depends on the element printed before it", same,
+								fmt.Sprintf("directive %q sibling %T %v redactState=%v: flags %v vs %v", d, sib, sib, redactState, ra.flags, rb.flags))
+						}
+						if count%4 == 0 && wd != "1000" {
+							// the same as a printer case for the model (paddings of a thousand bytes only cost time there)
+							c := &pcase{entry: "sprintf", format: d, args: []*Val{{K: "sl", GoT: "[]interface{}", Elems: []*Val{
+								siblingVals[(count+vi)%len(siblingVals)](),
+								{K: "usr", UK: 2, ID: newID(), Script: []*Act{{K: "dump"}, {K: "ret", S: "r"}}}}}}}
+							fmt.Fprintln(w, runPCase(c))
+							setRegistry(false)
+							setHook(nil)
+						}
 					}
 				}
 			}
@@ -1919,6 +2033,10 @@ type wrapErr struct {
 func (e *wrapErr) Error() string { return e.s + ": " + e.inner.Error() }
 func (e *wrapErr) Unwrap() error { return e.inner }
 
+type panicErr struct{ s string }
+
+func (e *panicErr) Error() string { panic(e.s) }
+
 func genQ15(w *bufio.Writer, rng *prng, n int, depth int) {
 	q := &qw{w}
 	setRegistry(false)
@@ -1931,6 +2049,7 @@ func genQ15(w *bufio.Writer, rng *prng, n int, depth int) {
 		}
 		// operands and directives; every directive consumes the next operand
 		nd := 1 + rng.intn(4)
+		shared := &plainErr{"shared"}
 		var f, fv strings.Builder // fv: the same format with the captured %w replaced by %v
 		var args []interface{}
 		var isW []bool
@@ -1944,7 +2063,17 @@ func genQ15(w *bufio.Writer, rng *prng, n int, depth int) {
 				flags = rng.pick([]string{"+", "-", " ", "8", "-12", ".3", "+10", "#", "#+"})
 			}
 			var a interface{}
-			switch rng.intn(8) {
+			switch rng.intn(11) {
+			case 8:
+				a = shared // the same error value, possibly under several directives of the call
+			case 9:
+				a = &panicErr{"boom‹"} // its Error method panics: reported in place, under the verb v
+			case 10:
+				if rng.coin(1, 2) {
+					a = redact.Unsafe(shared)
+				} else {
+					a = redact.Safe(&panicErr{"pb"})
+				}
 			case 0:
 				a = &plainErr{"e‹" + fmt.Sprint(j)}
 			case 1:
@@ -2010,8 +2139,14 @@ func genQ15(w *bufio.Writer, rng *prng, n int, depth int) {
 			// other %w has a nil or basic-kind operand (reported as a bad verb without going
 			// through the method dispatch that cancels the capture)
 			inClass := true
+			capturing := -1 // the first %w whose operand holds the returned error
 			for j, b := range isW {
-				if !b || holdsErr(args[j]) == gotErr {
+				if b && capturing < 0 && holdsErr(args[j]) == gotErr {
+					capturing = j
+				}
+			}
+			for j, b := range isW {
+				if !b || j == capturing {
 					continue
 				}
 				switch args[j].(type) {
